@@ -30,6 +30,14 @@ class Prop(common.PropertyCheck):
             yield {'k': 'reload', 'spec': fcsgen.gen_spec(rng, datatype=rng.choice(['I', 'F'])), 'edit': rng.choice(['col0', 'add1', 'zero', 'rewrite', 'rewrite'])}
         for i in range(self.budget(80, 800)):
             yield {'k': 'file', 'spec': fcsgen.gen_spec(rng, allow_malformed=True)}
+        # offsets in TEXT keywords padded with blanks (right-justified fixed-width fields, or trailing blanks) instead of zeros
+        for i in range(self.budget(60, 600)):
+            spec = fcsgen.gen_spec(rng, family=fcsgen.FAMILIES[i % 7])
+            spec['offset_style'] = ['blank_left', 'blank_right'][i % 2]
+            if i % 3 != 2:
+                spec['version'] = ['FCS3.0', 'FCS3.1'][i % 2]
+                spec['placement'] = 'text'
+            yield {'k': 'file', 'spec': spec}
         if self.tier == 'thorough':
             # all width vectors for D <= 3 (8 + 64 + 512) x endianness x end convention x placement
             for D in (1, 2, 3):
@@ -241,7 +249,8 @@ def compare_load(chk, impl, model, class_exact=('NotImplementedError',)):
     if impl['analysis'] != sorted(model['analysis']):
         return 'analysis differs'
     iw = sorted(w for w in impl['warnings'])
-    mw = sorted(set(model['warnings']))
+    # the library's warning for an ill-formed keyword segment does not say which segment it was: the model's 'stext' and 'text' are one class
+    mw = sorted(set('text' if w == 'stext' else w for w in model['warnings']))
     if iw != mw:
         return 'warnings differ: impl %s vs model %s' % (iw, mw)
     return None
